@@ -622,7 +622,7 @@ def nxm1FieldTable (length : Nat) (hasMask : Bool) : List (Nat × Option V) := [
   (NXM_NX_REG13, some Uint32Message.zero),
   (NXM_NX_REG14, some Uint32Message.zero),
   (NXM_NX_REG15, some Uint32Message.zero),
-  (NXM_NX_TUN_ID, none),
+  (NXM_NX_TUN_ID, some (byteArrayRecv length hasMask)),
   (NXM_NX_ARP_SHA, some ArpXHaField.zero),
   (NXM_NX_ARP_THA, some ArpXHaField.zero),
   (NXM_NX_IPV6_SRC, some Ipv6SrcField.zero),
@@ -632,20 +632,20 @@ def nxm1FieldTable (length : Nat) (hasMask : Bool) : List (Nat × Option V) := [
   (NXM_NX_ND_TARGET, some Ipv6DstField.zero),
   (NXM_NX_ND_SLL, some EthDstField.zero),
   (NXM_NX_ND_TLL, some EthSrcField.zero),
-  (NXM_NX_IP_FRAG, none),
+  (NXM_NX_IP_FRAG, some (byteArrayRecv length hasMask)),
   (NXM_NX_IPV6_LABEL, some IPv6FlowLabelField.zero),
-  (NXM_NX_IP_ECN, none),
-  (NXM_NX_IP_TTL, none),
-  (NXM_NX_MPLS_TTL, none),
+  (NXM_NX_IP_ECN, some (byteArrayRecv length hasMask)),
+  (NXM_NX_IP_TTL, some (byteArrayRecv length hasMask)),
+  (NXM_NX_MPLS_TTL, some (byteArrayRecv length hasMask)),
   (NXM_NX_TUN_IPV4_SRC, some TunnelIpv4SrcField.zero),
   (NXM_NX_TUN_IPV4_DST, some TunnelIpv4DstField.zero),
   (NXM_NX_PKT_MARK, some Uint32Message.zero),
-  (NXM_NX_TCP_FLAGS, none),
-  (NXM_NX_DP_HASH, none),
-  (NXM_NX_RECIRC_ID, none),
+  (NXM_NX_TCP_FLAGS, some (byteArrayRecv length hasMask)),
+  (NXM_NX_DP_HASH, some (byteArrayRecv length hasMask)),
+  (NXM_NX_RECIRC_ID, some (byteArrayRecv length hasMask)),
   (NXM_NX_CONJ_ID, some Uint32Message.zero),
-  (NXM_NX_TUN_GBP_ID, none),
-  (NXM_NX_TUN_GBP_FLAGS, none),
+  (NXM_NX_TUN_GBP_ID, some (byteArrayRecv length hasMask)),
+  (NXM_NX_TUN_GBP_FLAGS, some (byteArrayRecv length hasMask)),
   (NXM_NX_TUN_METADATA0, some (byteArrayRecv length hasMask)),
   (NXM_NX_TUN_METADATA1, some (byteArrayRecv length hasMask)),
   (NXM_NX_TUN_METADATA2, some (byteArrayRecv length hasMask)),
@@ -654,7 +654,7 @@ def nxm1FieldTable (length : Nat) (hasMask : Bool) : List (Nat × Option V) := [
   (NXM_NX_TUN_METADATA5, some (byteArrayRecv length hasMask)),
   (NXM_NX_TUN_METADATA6, some (byteArrayRecv length hasMask)),
   (NXM_NX_TUN_METADATA7, some (byteArrayRecv length hasMask)),
-  (NXM_NX_TUN_FLAGS, none),
+  (NXM_NX_TUN_FLAGS, some (byteArrayRecv length hasMask)),
   (NXM_NX_CT_STATE, some Uint32Message.zero),
   (NXM_NX_CT_ZONE, some Uint16Message.zero),
   (NXM_NX_CT_MARK, some Uint32Message.zero),
